@@ -232,7 +232,7 @@ func ruleRangeWindow(r *Run) {
 		if !ok {
 			continue
 		}
-		if callee := staticCallee(call); callee != nil && callee.Name() == "AsTime" {
+		if callee := staticCallee(call); callee != nil && cname(callee) == "AsTime" {
 			if f, _, ok := loadOfField(call.Call.Args[0]); ok && f == "Timestamp" {
 				tsVal = call
 			}
@@ -365,7 +365,7 @@ func ruleRangeWindow(r *Run) {
 						if !ok {
 							continue
 						}
-						if callee := staticCallee(call); callee != nil && callee.Name() == "AsTime" {
+						if callee := staticCallee(call); callee != nil && cname(callee) == "AsTime" {
 							if fl, _, ok := loadOfField(call.Call.Args[0]); ok && fl == "Timestamp" {
 								tVal, inner, lf = call, l, f
 							}
